@@ -92,6 +92,12 @@ def families(m, depth, width):
     for k in range(width):
         t = m.Times(m.Int(3), m.Ite(m.LT(t, j), t, m.Minus(t, j)))
     out.append(("times-ite-diamond", m.LE(t, j)))
+    # deep nesting of products: t' = 3 * t + j  (logic detection asks for the free symbols of every factor: they must come from
+    # the environment's memoising service, not from a walk of the factor per product)
+    t = i
+    for k in range(depth):
+        t = m.Plus(m.Times(m.Int(3), t), j) if k % 2 else m.Minus(m.Times(t, m.Int(2)), i)
+    out.append(("times-chain", m.LE(t, j)))
     # string operators sharing their arguments (tree size 3^width)
     from pysmt.typing import STRING
     s0 = m.Symbol("str_s", STRING)
@@ -270,6 +276,21 @@ def work_check(tier, seed):
                 times.setdefault(oname, []).append(best)
         pop_env()
         n += 1
+    # the same growth without a clock: the clause sets CNFizer stores per node (each one built by copying the children's)
+    from pysmt.rewritings import CNFizer
+    stored = []
+    for d in (150, 300, 600):
+        e4 = fresh()
+        f4 = families(e4.formula_manager, d, 4)[0][1]
+        cz = CNFizer(environment=e4)
+        cz.convert(f4)
+        stored.append(sum(len(v_[1]) for v_ in cz.memoization.values() if isinstance(v_, tuple) and len(v_) == 2 and hasattr(v_[1], "__len__")))
+        pop_env()
+        n += 1
+    if stored[0] > 0 and stored[1] > 3.2 * stored[0] and stored[2] > 3.2 * stored[1] \
+            and not any(oname == "cnf" and a_ >= 0.1 and b_ > 3.2 * a_ and c_ > 3.2 * b_ for oname, (a_, b_, c_) in times.items()):
+        viol.append({"key": "cnf-time-quadratic-in-depth", "family": "bool-chain", "operation": "cnf",
+                     "clause_set_elements_stored": {"depth 150": stored[0], "depth 300": stored[1], "depth 600": stored[2]}})
     for oname, (a_, b_, c_) in times.items():
         # doubling the depth doubles linear work and quadruples quadratic work: reported only when BOTH doublings more than
         # triple the time and the times are large enough to be measured
@@ -277,7 +298,7 @@ def work_check(tier, seed):
             viol.append({"key": "%s-time-quadratic-in-depth" % oname, "family": "bool-chain", "operation": oname,
                          "cpu_seconds": {"depth %d" % d0: round(a_, 2), "depth %d" % (2 * d0): round(b_, 2), "depth %d" % (4 * d0): round(c_, 2)}})
     return {"name": "work", "bounded": True, "evaluations": n, "distinct_nontrivial": n,
-            "rule": "15 formula families (chains of depth %d over Boolean / arithmetic / bit-vector operators, ITE of every sort, string operators and "
+            "rule": "16 formula families (chains of depth %d over Boolean / arithmetic / bit-vector operators, ITE of every sort, string operators and "
                     "array stores; diamonds of width %d whose tree expansion has 2^%d nodes) x 15 operations (type check, rejection of an ill-typed construction on top, simplify, "
                     "substitute, free symbols, atoms, size, quantifier-freeness, logic detection, sorts, NNF, AIG, prenex, CNF, "
                     "DAG print + re-parse) under the default recursion limit of 1000: no RecursionError, callbacks executed "
